@@ -55,7 +55,7 @@ T = {
          "held on sequential histories and concurrent runs; exploration", "operations on different entities commute, so the expected final registry is the union", "4/C20"),
 }
 
-built = sorted(f[:-3].upper() for f in os.listdir(os.path.join(V, "harness/checks")) if f.startswith("c") and f.endswith(".go") and f[1:3].isdigit())
+built = sorted(f[:-3].upper() for f in os.listdir(os.path.join(V, "harness/checks")) if __import__("re").fullmatch(r"c\d\d\.go", f))
 checks, na = [], []
 for pid in sorted(T):
     tech, text, note, ref = T[pid]
